@@ -75,10 +75,10 @@ var Check = &run.Check{
 		"parameters 3-7 x {instance, static, abstract, interface abstract, interface default} x {last parameter varargs or not}; non-getter/setter methods 18-22 x {0,3 getters/setters} x {class, abstract class, interface}; " +
 		"{0,1,2,4 getters/setters} x {0,1,2 other methods} x {class, interface} (data class / lazy element and their near misses); top-level ifs 6-10 x {no decoy, ifs nested in loops/try/switch, ifs inside the branches of one top-level if} x {class, interface default}; " +
 		"top-level switches 6-10 x {no decoy, nested switches} x 2 forms; ifs/switches 7|8 x 7|8 in one method; condition height 2-6 lines x {if keyword on the condition's line, alone on the line before} x " +
-		"{top-level in a class, top-level in an interface default method, nested in an if, nested in a loop/try, condition of a while}. (b) random classes: 0-28 methods, every method draws parameters, if/switch counts, condition heights, " +
+		"{top-level in a class, top-level in an interface default method, nested in an if, nested in a loop/try, condition of a while}; every method-level dimension (length, parameters, ifs, switches, condition height) T-2…T+2 once more on an accessor-NAMED ordinary method (getReport(a,b,c,d,e,f), a 31-line setUpEverything()). (b) random classes: 0-28 methods, every method draws parameters, if/switch counts, condition heights, " +
 		"body length near the thresholds with probability 3/4, plus nested carriers, else-if chains (only far from the threshold), getters/setters, abstract methods, constructors, fields, comments and strings mentioning `if (`/`switch (`. " +
-		"(c) ignore part: rich projects of 11 files in which each of the seven kinds has >= 2 findings with different sizes and a near miss, analysed with every one of the 2^7 subsets of kinds as ignore list (x3 projects quick, x9 thorough). " +
-		"Every case: AnalysisPath + IdentifyBadSmell(nil) vs truth table; IdentifyBadSmell(ignore list) == full report minus the named kinds; SortSmellByType of that list: keys, permutation, sized kinds non-increasing. " +
+		"(c) ignore part: rich projects of 14 files in which each of the seven kinds has >= 2 findings with different sizes and a near miss, a third of the method-level findings sit on accessor-named methods, and longParameterList has >= 17 findings spread over 4 files with sizes unrelated to the file names, analysed with every one of the 2^7 subsets of kinds as ignore list (x3 projects quick, x9 thorough). " +
+		"Every case: AnalysisPath + IdentifyBadSmell(nil) vs truth table; IdentifyBadSmell(ignore list) == full report minus the named kinds; SortSmellByType of that list in pipeline order AND in an order shuffled from the case stream: keys, permutation, sized kinds non-increasing. " +
 		"Every Nth case instead through `coca bs -p DIR [-x kinds] [-s type]` reading coca_reporter/bs.json (same oracle). " +
 		"non-trivial = at least one planted fact within 2 of a threshold; distinct = hash of (per class: kind, fields, constructors, per method: form, role, parameters, varargs, length, if/switch counts, decoy counts, condition heights; ignore mask; CLI/sort flags)",
 	Assumptions: []string{
@@ -87,6 +87,7 @@ var Check = &run.Check{
 		"a top-level if/switch statement is a direct child of the method body's statement list; ifs/switches inside branches of if/else/for/while/do/try/switch/synchronized are nested and must not count. Whether the members of an `else if` chain count is not settled by the statement: chains are generated only in methods where (top-level ifs + else-if members) < 8, with one-line conditions. Labelled ifs and bare blocks are not generated",
 		"a condition's '(' is on the line of its first token and its ')' on the line of its last token, so its height is the same with or without the parentheses; the `if` keyword may stand alone on the line before (the finding's line is then the condition's line, not the keyword's)",
 		"getter/setter = name `get`/`set` + upper-case letter; other method names never start with get/set (`settle`, `getaway`, `isReady` are not generated, the statement does not say what they are)",
+		"accessor-named ordinary methods (getReport with 6 parameters, a 31-line setUpEverything) are methods: the four method-level kinds are expected for them like for any method; for largeClass/dataClass they count as getters/setters by name, and they are only generated in classes with >= 1 other ordinary method and < 18 ordinary methods, where the class-level verdicts do not depend on that reading",
 		"methods = method declarations of the type (JLS: constructors are not methods); constructors are only generated in classes with >= 1 and != 19 ordinary methods, where either reading gives the same verdicts. A varargs parameter is a parameter",
 		"longMethod is only expected for methods with a body (the statement measures to the closing brace); parameter lists of body-less methods wrap over at most 8 lines",
 		"Size is asserted for longMethod (line difference), longParameterList (#parameters), largeClass (#non-getter/setter methods), repeatedSwitches (#ifs resp. #switches); for dataClass the statement does not say which number it is, so its value is only used for the ordering clause",
@@ -127,7 +128,7 @@ func toTruth(p *smellgen.Project) []oracle.SmellClassTruth {
 		ct := oracle.SmellClassTruth{File: c.RelPath, Kind: c.Kind}
 		for i := range c.Methods {
 			m := &c.Methods[i]
-			mt := oracle.SmellMethodTruth{Name: m.Name, Form: m.Form, GetterSetter: m.GetterSetter(), Params: m.Params, Varargs: m.Varargs, Generic: m.Generic, HasBody: m.HasBody,
+			mt := oracle.SmellMethodTruth{Name: m.Name, Form: m.Form, GetterSetter: m.GetterSetter(), AccessorNamed: m.AccessorNamed, Params: m.Params, Varargs: m.Varargs, Generic: m.Generic, HasBody: m.HasBody,
 				StartLine: m.StartLine, CloseLine: m.CloseLine, TopIfs: m.TopIfs, TopSwitches: m.TopSwitches, DecoyLines: m.DecoyLines}
 			for _, cd := range m.Conds {
 				mt.Conds = append(mt.Conds, oracle.SmellCondTruth{IfLine: cd.IfLine, StartLine: cd.StartLine, EndLine: cd.EndLine})
@@ -200,6 +201,23 @@ func accepted(text string) (int, string) {
 	return n, first
 }
 
+// countLists records how demanding the sorted lists of a report were: lists with >= 2 findings, and lists with >= 13
+// findings from >= 3 files (Go's sort.Slice insertion-sorts up to 12 elements, larger inputs take the other path).
+func countLists(o *run.Outcome, groups map[string][]oracle.SmellFinding) {
+	for _, k := range oracle.SmellSizedKinds {
+		if len(groups[k]) >= 2 {
+			o.Count("sorted_sized_lists_with_2+_findings", 1)
+		}
+		files := map[string]bool{}
+		for _, f := range groups[k] {
+			files[f.File] = true
+		}
+		if len(groups[k]) >= 13 && len(files) >= 3 {
+			o.Count("sorted_sized_lists_with_13+_findings_from_3+_files", 1)
+		}
+	}
+}
+
 func runCase(c *run.Ctx, o *run.Outcome) {
 	r := c.Rng
 	mode, sub := classify(c.Index)
@@ -247,6 +265,9 @@ func runCase(c *run.Ctx, o *run.Outcome) {
 	}
 	for _, e := range expected {
 		o.Count("expected_full_report/"+e.Kind, 1)
+		if strings.Contains(e.Ctx, "/accessor-named-method") {
+			o.Count("expected_findings_on_accessor_named_methods/"+e.Kind, 1)
+		}
 	}
 	nMethods := 0
 	for _, cl := range p.Classes {
@@ -268,6 +289,9 @@ func runCase(c *run.Ctx, o *run.Outcome) {
 			}
 			if m.Varargs {
 				o.Count("methods_with_varargs", 1)
+			}
+			if m.AccessorNamed {
+				o.Count("accessor_named_ordinary_methods", 1)
 			}
 		}
 	}
@@ -351,11 +375,7 @@ func runCase(c *run.Ctx, o *run.Outcome) {
 			witness["observed_sorted"] = groups
 			report(oracle.SmellCheckGroups(groups), where)
 			o.Count("sorted_reports_checked", 1)
-			for _, k := range oracle.SmellSizedKinds {
-				if len(groups[k]) >= 2 {
-					o.Count("sorted_sized_lists_with_2+_findings", 1)
-				}
-			}
+			countLists(o, groups)
 			observed = oracle.SmellFlatten(groups)
 		} else {
 			var js []jsonSmell
@@ -375,7 +395,9 @@ func runCase(c *run.Ctx, o *run.Outcome) {
 	} else {
 		witness["boundary"] = "bs.BadSmellApp.AnalysisPath + IdentifyBadSmell + bs_domain.SortSmellByType"
 		var full, filtered []bs_domain.BadSmellModel
-		var groups map[string][]bs_domain.BadSmellModel
+		var groups, groupsShuffled map[string][]bs_domain.BadSmellModel
+		var shuffled []bs_domain.BadSmellModel
+		shufflePerm := r.Fork()
 		// the ignore list as the command builds it: strings.Split(flag, ","), i.e. [""] when the flag is absent
 		var ignoreArg []string
 		if mask == 0 {
@@ -399,6 +421,12 @@ func runCase(c *run.Ctx, o *run.Outcome) {
 			full = app.IdentifyBadSmell(nodes, nil)
 			filtered = app.IdentifyBadSmell(nodes, ignoreArg)
 			groups = bs_domain.SortSmellByType(filtered, sizedKind)
+			// the same findings in an order drawn from the case's stream: the result of sorting must not rely on the
+			// order in which the analysis happens to deliver them
+			for _, i := range shufflePerm.Perm(len(filtered)) {
+				shuffled = append(shuffled, filtered[i])
+			}
+			groupsShuffled = bs_domain.SortSmellByType(shuffled, sizedKind)
 		})
 		if panicked {
 			o.Violate("panic@"+site, "bad-smell analysis panicked: %s", val)
@@ -441,11 +469,19 @@ func runCase(c *run.Ctx, o *run.Outcome) {
 			witness["observed_sorted"] = g2
 		}
 		o.Count("sorted_reports_checked", 1)
-		for _, k := range oracle.SmellSizedKinds {
-			if len(g2[k]) >= 2 {
-				o.Count("sorted_sized_lists_with_2+_findings", 1)
-			}
+		countLists(o, g2)
+		g3 := map[string][]oracle.SmellFinding{}
+		for k, v := range groupsShuffled {
+			g3[k] = fromModels(dir, v)
 		}
+		shufF := fromModels(dir, shuffled)
+		sm2 := append(oracle.SmellCheckGroups(g3), oracle.SmellCheckPermutation(shufF, g3)...)
+		report(sm2, "SortSmellByType(findings in shuffled order)")
+		if len(sm2) > 0 {
+			witness["shuffled_input_of_sort"] = shufF
+			witness["observed_sorted_from_shuffled"] = g3
+		}
+		o.Count("sorted_reports_checked(shuffled input)", 1)
 		shown = fullF
 	}
 	if c.Index < 8*4*16 && len(p.Classes) == 1 && len(p.Classes[0].Text) < 3500 && len(expected) > 0 && len(points) > 0 && c.Index%5 == 1 {
